@@ -1,7 +1,7 @@
 """C15 — arbitrary-size integers behave like the numbers they encode"""
 from common import *
 
-THEOREMS = ['cmp_eq_value', 'minimal_inj', 'eq_iff_value', 'isZero_iff_value', 'isPositive_eq_value', 'isNegative_eq_value', 'unsignedFromBytes_spec', 'unsignedFromBytes_nil', 'unsignedFromBytes_of_minimal', 'integerFromPrimitive_spec', 'unsignedFromPrimitive_spec', 'sliceToSigned_value', 'sliceToUnsigned_value', 'sliceToSigned_decodeInt', 'sliceToUnsigned_decodeInt', 'encInt_spec', 'from_then_toSigned', 'from_then_toUnsigned', 'tcValue_range', 'minimal_magnitude', 'cmpZip_eq_compare']
+THEOREMS = ['cmp_eq_value', 'minimal_inj', 'eq_iff_value', 'isZero_iff_value', 'isPositive_eq_value', 'isNegative_eq_value', 'unsignedFromBytes_spec', 'unsignedFromBytes_nil', 'unsignedFromBytes_of_minimal', 'integerFromPrimitive_spec', 'unsignedFromPrimitive_spec', 'sliceToSigned_value', 'sliceToUnsigned_value', 'sliceToSigned_decodeInt', 'sliceToUnsigned_decodeInt', 'encInt_spec', 'from_then_toSigned', 'from_then_toUnsigned', 'tcValue_range', 'minimal_magnitude', 'cmpZip_eq_compare', 'cmp_swap', 'cmp_trans', 'cmp_eq_iff_eq']
 RULE = ("big.cmp: all pairs of 1-octet contents, 1-octet x 2-octet minimal contents, random pairs biased to equal length / sign / "
         "shared prefixes up to 24 octets; big.pred / big.conv / ubig.conv on the same pool; big.from for every fixed-width type over "
         "boundary and random values; uns.frombytes on all magnitudes of length 1-2, all-zero strings, random with leading zeros. "
@@ -135,5 +135,5 @@ def nontrivial(req, ans):
     return not ans.startswith("invalid") and not ans.startswith("err")
 
 LEVEL = "proof"
-LEVEL_TEXT = ("Lean 4 theorems for ALL contents of unbounded length: Integer / Unsigned decoding accepts exactly the minimal two's complement forms (non-negative ones for Unsigned) (integerFromPrimitive_spec, unsignedFromPrimitive_spec); on accepted values Ord equals the order of the numbers, equality (and hence the hash of the content octets) equality of the numbers, is_zero / is_positive / is_negative the sign of the number (cmp_eq_value, eq_iff_value, minimal_inj, isZero_iff_value, isPositive_eq_value, isNegative_eq_value); Unsigned::from_bytes/from_slice of ANY non-empty magnitude - leading zeros, zero itself - yields that number in minimal form, never a panic (unsignedFromBytes_spec, unsignedFromBytes_nil); conversion to a w-octet signed/unsigned builtin succeeds exactly when the number fits and preserves it (sliceToSigned_value, sliceToUnsigned_value, *_decodeInt) and conversion from every builtin yields the minimal form of the same number and converts back (encInt_spec, from_then_toSigned, from_then_toUnsigned). Correspondence: big integers around every octet-length and sign boundary, all-zero / all-FF paddings, comparisons of equal/different length and sign, conversions at each builtin range edge.")
+LEVEL_TEXT = ("Lean 4 theorems for ALL contents of unbounded length: Integer / Unsigned decoding accepts exactly the minimal two's complement forms (non-negative ones for Unsigned) (integerFromPrimitive_spec, unsignedFromPrimitive_spec); on accepted values Ord equals the order of the numbers, equality (and hence the hash of the content octets) equality of the numbers, is_zero / is_positive / is_negative the sign of the number (cmp_eq_value, eq_iff_value, minimal_inj, isZero_iff_value, isPositive_eq_value, isNegative_eq_value), and Ord is a lawful total order consistent with == (cmp_swap, cmp_trans, cmp_eq_iff_eq: what sorting and ordered maps rely on); Unsigned::from_bytes/from_slice of ANY non-empty magnitude - leading zeros, zero itself - yields that number in minimal form, never a panic (unsignedFromBytes_spec, unsignedFromBytes_nil); conversion to a w-octet signed/unsigned builtin succeeds exactly when the number fits and preserves it (sliceToSigned_value, sliceToUnsigned_value, *_decodeInt) and conversion from every builtin yields the minimal form of the same number and converts back (encInt_spec, from_then_toSigned, from_then_toUnsigned). Correspondence: big integers around every octet-length and sign boundary, all-zero / all-FF paddings, comparisons of equal/different length and sign, conversions at each builtin range edge.")
 LEVEL_NOTE = ("Trusted: Lean 4.33 kernel; axioms propext, Classical.choice, Quot.sound only; the hand-written model (lean/Bcder/Model/Int.lean) tied to /repo on every run by differential correspondence; reference tcValue / isMinimalTC / inRange in lean/Bcder/Spec. An Integer is represented by its content octets; the theorems about accepted values assume minimal form, which is what decoding guarantees (examples in the file show the hypothesis is needed: the model panics on the empty value exactly where Rust indexes [0]). Hash is covered as hashing the content octets.")
